@@ -186,7 +186,7 @@ class Scenario:
         w = line.split()
         nl = self.nl
         now = datetime.datetime.utcnow
-        if w[0] in ('start', 'run', 'rac', 'rcw', 'reset', 'close', 'xreset', 'xclose') and self.pending:
+        if w[0] in ('start', 'run', 'rac', 'rcw', 'reset', 'close', 'xreset', 'xclose', 'kclose') and self.pending:
             return 'skipped'          # serial histories: no lifecycle call while another one is blocked
         if w[0] == 'start':
             await self._call('start', nl.start())
@@ -236,6 +236,33 @@ class Scenario:
                         c.exit(RunResult(ret=int(w[1])), exitcode=0)
             await settle()
             self._collect()
+        elif w[0] == 'kclose':
+            # the child exits; k scheduler steps later — anywhere between the process's exit and the end of the `finish`
+            # transition — a fresh task calls close().  What close() does must not depend on k.
+            live = self.world.live()
+            if live:
+                c = live[-1]
+                k = int(w[2])
+
+                async def closer() -> Any:
+                    for _ in range(k):
+                        await asyncio.sleep(0)
+                    return await nl.close()
+                wt = asyncio.ensure_future(closer())
+                if w[1] == '-':
+                    c.exit(None, exitcode=-9)
+                else:
+                    c.exit(RunResult(ret=int(w[1])), exitcode=0)
+                await settle()
+                self._collect()
+                if wt.done():
+                    self.tok(f'ret:close:{self._res(wt)}')
+                else:
+                    self.tok('blocked:close')
+                    self.pending.append(('close', wt))
+            else:
+                await settle()
+                self._collect()
         elif w[0] in ('xreset', 'xclose'):
             # the child exits; a caller that watches the state attribute calls reset()/close() the moment it reads
             # 'finished' — the `finish` transition may still be suspended in its hooks
